@@ -213,6 +213,9 @@ func rulesC13(w *World, r *Report) {
 		r.undecided("C13.anchor", "(*Encoder).WriteData", "-", "anchor function not found")
 		return
 	}
+	// a false hit in the ref table answers a value with a back-reference: its content —
+	// and an unrepresentable member in it — is never visited
+	w.ruleRefKeyIdentity(r, "C13.R6 only the same container is answered with a back-reference")
 	roots := w.encoderRoots()
 	reach := w.reachPkg(roots...)
 	r.role("encode entry points", fnNames(roots))
